@@ -59,9 +59,33 @@ class CallableHandler:
         return await self.fn(ev)
 
 
+class MethodHandler:
+    """the handler is a bound method: `obj.on_event` evaluates to a new (equal, not identical) object every time"""
+    def __init__(self, fn):
+        self.fn = fn
+
+    async def on_event(self, ev):
+        return await self.fn(ev)
+
+
+def again(handler):
+    """the same handler as a strategy would name it a second time (a bound method is looked up afresh)"""
+    if getattr(handler, "__self__", None) is not None and isinstance(handler.__self__, MethodHandler):
+        return handler.__self__.on_event
+    return handler
+
+
+def hname(handler):
+    if hasattr(handler, "hname"):
+        return handler.hname
+    return handler.__self__.fn.hname
+
+
 def make_handler(mon, name, nsusp, raises, extra=None, kind=0):
     if kind:
         h = make_handler(mon, name, nsusp, raises, extra)
+        if kind == 3:
+            return MethodHandler(h).on_event
         if kind == 1:
             async def with_tag(tag, ev):
                 return await h(ev)
@@ -97,10 +121,11 @@ def run_dispatcher(d):
 
 def scenario(ctx, props=("C12",), nsrc=2, nev=2, njobs=0, max_mc=3, derived=True, sniffers=True, dup=True,
              susp=True, raising=True, job_from_handler=False, job_from_job=False, raising_job=False,
-             handler_kinds=False, job_perms=True):
+             handler_kinds=False, job_perms=True, job_zones=False):
     P = set(props)
-    # what kind of callable the handlers are: plain coroutine functions, functools.partial objects, callable instances
-    hkind = ctx.choice("handler_callable_kind", 3) if handler_kinds else 0
+    # what kind of callable the handlers are: plain coroutine functions, functools.partial objects, callable instances,
+    # bound methods
+    hkind = ctx.choice("handler_callable_kind", 4) if handler_kinds else 0
     mc = ctx.int("max_concurrent", 1, max_mc)
     d = bs.backtesting_dispatcher(max_concurrent=mc)
     mon = Monitor(d)
@@ -154,6 +179,11 @@ def scenario(ctx, props=("C12",), nsrc=2, nev=2, njobs=0, max_mc=3, derived=True
             mon.rec("job", j, name, "end")
             if raises:
                 raise Boom(name)
+        if job_zones:
+            # the same instant named in another time zone (UTC, UTC+2, UTC-3), one choice per job
+            h = [0, 2, -3][ctx.choice("zone_of_" + name, 3)]
+            if h:
+                when = when.astimezone(datetime.timezone(datetime.timedelta(hours=h)))
         d.schedule(when, job)
         return j
 
@@ -173,28 +203,28 @@ def scenario(ctx, props=("C12",), nsrc=2, nev=2, njobs=0, max_mc=3, derived=True
         names = []
         h_a = mk("h%da" % s, extra=(forward if (derived and s == 0) else None))
         d.subscribe(sources[s], h_a)
-        names.append(h_a.hname)
+        names.append(hname(h_a))
         if s == 0:
             h_b = mk("h%db" % s, extra=maybe_schedule_from_handler)
             d.subscribe(sources[s], h_b)
-            names.append(h_b.hname)
+            names.append(hname(h_b))
             if dup:
-                d.subscribe(sources[s], h_a)       # duplicate subscription: must be ignored
+                d.subscribe(sources[s], again(h_a))       # duplicate subscription: must be ignored
         expected[s] = names
     if derived:
         h_d = mk("hd")
         d.subscribe(derived_src, h_d)
-        expected["derived"] = [h_d.hname]
+        expected["derived"] = [hname(h_d)]
     pre, post = [], []
     if sniffers:
         hp = mk("pre")
         d.subscribe_all(hp, front_run=True)
-        pre.append(hp.hname)
+        pre.append(hname(hp))
         hq = mk("post")
         d.subscribe_all(hq)
-        post.append(hq.hname)
+        post.append(hname(hq))
         if dup:
-            d.subscribe_all(hq)
+            d.subscribe_all(again(hq))
     # ---- jobs scheduled before the run, in a solver-chosen insertion order
     if njobs:
         tjs = [ctx.dt("t_job%d" % i, T0 - datetime.timedelta(days=2), T_HI + datetime.timedelta(days=5))
